@@ -58,7 +58,7 @@ def _validate(out, prop, trace, tag):
         rec["i"] = v["i"]
         ev = events[v["i"] - 1]
         case = {"pool": events[0].get("pool"), "event": ev}
-        if "hist" not in ev:
+        if "hist" not in ev and "calls" not in ev:
             calls = []
             for e in reversed(events[1:v["i"] - 1]):
                 if e.get("event") == "reset":
@@ -72,19 +72,16 @@ def _validate(out, prop, trace, tag):
 
 def _shards(args_base, n, wd, name):
     """run `replay-dom` in n parallel shards; returns (stats list, residual files)"""
-    procs = []
-    for k in range(n):
+    from concurrent.futures import ThreadPoolExecutor
+    zero = {"edges_replayed": 0, "walk_steps": 0, "unreached_states": 0, "crashed": True}
+
+    def one(k):
         res = os.path.join(wd, "%s.res.%d" % (name, k))
-        a = [C.HARNESS] + args_base + ["--out", res, "--shard", "%d/%d" % (k, n)]
-        procs.append((subprocess.Popen(a, stdout=subprocess.PIPE, stderr=subprocess.DEVNULL, text=True), res))
-    stats, files = [], []
-    for p, res in procs:
-        so, _ = p.communicate(timeout=7200)
-        if p.returncode != 0:
-            raise C.ToolError("harness replay-dom exited %d" % p.returncode)
-        stats.append(json.loads(so.strip().splitlines()[-1]))
-        files.append(res)
-    return stats, files
+        so, crashed = C.run_harness_watched(args_base + ["--out", res, "--shard", "%d/%d" % (k, n)], res, timeout=7200)
+        return (dict(zero) if crashed else json.loads(so.strip().splitlines()[-1])), res
+    with ThreadPoolExecutor(max_workers=n) as ex:
+        results = list(ex.map(one, range(n)))
+    return [r[0] for r in results], [r[1] for r in results]
 
 
 def run(prop, tier):
@@ -118,12 +115,15 @@ def run(prop, tier):
         # impl -> spec: long random histories over a larger pool, every event judged by Trace_Dom
         nh, ln = {"quick": (12, 150), "thorough": (120, 300)}[tier]
         rec = os.path.join(wd, "rec.trace")
-        so = C.run_harness(["dom-record", "--out", rec, "--histories", str(nh), "--len", str(ln),
-                            "--seed", str(seed)] + (["--queries"] if prop == "C14" else []), timeout=3000)
-        rstats = json.loads(so.strip().splitlines()[-1])
+        so, crashed = C.run_harness_watched(["dom-record", "--out", rec, "--histories", str(nh), "--len", str(ln),
+                                             "--seed", str(seed)] + (["--queries"] if prop == "C14" else []), rec,
+                                            timeout=3000)
+        rstats = {"steps": 0, "queries": 0} if crashed else json.loads(so.strip().splitlines()[-1])
         out.traces += _validate(out, prop, rec, "domtvrec")
         evs = C.read_ndjson(rec)
         for e in evs[1:]:
+            if e.get("event") == "crash":
+                continue
             if e.get("event") == "call":
                 c = e["call"]
                 changed = e["pre"]["kids"] != e["post"]["kids"] or e["pre"]["attrs"] != e["post"]["attrs"]
@@ -174,7 +174,7 @@ def replay(prop, path):
         with open(inp, "w") as f:
             json.dump(case, f)
         tr = os.path.join(wd, "r.trace")
-        C.run_harness(["dom-rerun", "--in", inp, "--out", tr])
+        C.run_harness_watched(["dom-rerun", "--in", inp, "--out", tr], tr)
         out.traces = _validate(out, prop, tr, "domrr")
         out.evaluations = 1
         out.nontrivial_count = 2
